@@ -6,6 +6,7 @@ package main
 import (
 	"bytes"
 	"fmt"
+	"math"
 	"os"
 	"os/signal"
 	"path/filepath"
@@ -45,6 +46,48 @@ func (s scriptR3) Render(_ sdf.SDF3, out sdf.Triangle3Writer) {
 	out.Close()
 }
 
+// scripted renderers whose geometry is not finite: every 7th item has a NaN, +Inf or -Inf coordinate (what a blend that
+// overflows far from the surface, or a division by zero in a user shape, hands to the sinks). The call has to return.
+type scriptNaN3 struct{ n, b int }
+
+func (s scriptNaN3) Info(sdf.SDF3) string { return fmt.Sprintf("scripted-nan %d", s.n) }
+func (s scriptNaN3) Render(_ sdf.SDF3, out sdf.Triangle3Writer) {
+	bad := []float64{math.NaN(), math.Inf(1), math.Inf(-1), math.MaxFloat64, -math.MaxFloat64}
+	for i := 0; i < s.n; i += s.b {
+		var ts []*sdf.Triangle3
+		for j := i; j < i+s.b && j < s.n; j++ {
+			f := float64(j)
+			t := &sdf.Triangle3{{X: f}, {X: f, Y: 1}, {X: f, Z: 1}}
+			if j%7 == 3 {
+				t[j%3].Y = bad[(j/7)%len(bad)]
+			}
+			ts = append(ts, t)
+		}
+		out.Write(ts)
+	}
+	out.Close()
+}
+
+type scriptNaN2 struct{ n, b int }
+
+func (s scriptNaN2) Info(sdf.SDF2) string { return fmt.Sprintf("scripted-nan %d", s.n) }
+func (s scriptNaN2) Render(_ sdf.SDF2, out sdf.Line2Writer) {
+	bad := []float64{math.NaN(), math.Inf(1), math.Inf(-1), math.MaxFloat64, -math.MaxFloat64}
+	for i := 0; i < s.n; i += s.b {
+		var ls []*sdf.Line2
+		for j := i; j < i+s.b && j < s.n; j++ {
+			f := float64(j)
+			l := &sdf.Line2{{X: f}, {X: f, Y: 1}}
+			if j%7 == 3 {
+				l[j%2].Y = bad[(j/7)%len(bad)]
+			}
+			ls = append(ls, l)
+		}
+		out.Write(ls)
+	}
+	out.Close()
+}
+
 type scriptR2 struct{ n, b int }
 
 func (s scriptR2) Info(sdf.SDF2) string { return fmt.Sprintf("scripted %d", s.n) }
@@ -78,6 +121,9 @@ func c12Render3(name string, size int) render.Render3 {
 	case "octree":
 		return render.NewMarchingCubesOctree(size)
 	}
+	if name == "scripted-nan" {
+		return scriptNaN3{size, 37}
+	}
 	return scriptR3{size, 37}
 }
 
@@ -87,6 +133,9 @@ func c12Render2(name string, size int) render.Render2 {
 		return render.NewMarchingSquaresUniform(size)
 	case "quadtree":
 		return render.NewMarchingSquaresQuadtree(size)
+	}
+	if name == "scripted-nan" {
+		return scriptNaN2{size, 37}
 	}
 	return scriptR2{size, 37}
 }
@@ -166,8 +215,13 @@ func childC12Census(args []string) {
 	var counts []string
 	alt := strings.HasSuffix(rname, "-alt") // history alternating coarse and fine renders (differently sized work per render)
 	rname = strings.TrimSuffix(rname, "-alt")
+	procs := strings.HasSuffix(rname, "-procs") // history in which GOMAXPROCS is lowered and raised between renders
+	rname = strings.TrimSuffix(rname, "-procs")
 	base := size
 	for k := 1; k <= K; k++ {
+		if procs {
+			runtime.GOMAXPROCS([]int{1, 4, runtime.NumCPU(), 2}[k%4])
+		}
 		if alt {
 			size = base
 			if k%2 == 0 {
@@ -223,6 +277,7 @@ func checkC12(c *Ctx) {
 		{"3mf", "uniform", 10}, {"3mf", "scripted", 600},
 		{"dxf", "uniform", 20}, {"dxf", "quadtree", 20}, {"dxf", "scripted", 600},
 		{"svg", "uniform", 20}, {"svg", "quadtree", 20}, {"svg", "scripted", 600},
+		{"stl", "scripted-nan", 900}, {"3mf", "scripted-nan", 900}, {"dxf", "scripted-nan", 900}, {"svg", "scripted-nan", 900},
 	}
 	var faults []c12Fault
 	for ci, cb := range combos {
@@ -352,7 +407,7 @@ func checkC12(c *Ctx) {
 		size    int
 	}
 	cens := []cen{{"mem", "uniform", 8}, {"mem", "octree", 8}, {"mem", "uniform-alt", 6}, {"stl", "uniform-alt", 5}, {"mem", "octree-alt", 6}, {"dxf", "uniform-alt", 10}, {"stl", "uniform", 8}, {"stl", "octree", 8}, {"stl", "scripted", 600},
-		{"3mf", "uniform", 6}, {"dxf", "uniform", 12}, {"dxf", "quadtree", 12}, {"svg", "uniform", 12}, {"svg", "quadtree", 12}}
+		{"mem", "uniform-procs", 6}, {"stl", "uniform-procs", 5}, {"3mf", "uniform", 6}, {"dxf", "uniform", 12}, {"dxf", "quadtree", 12}, {"svg", "uniform", 12}, {"svg", "quadtree", 12}}
 	census := map[string]string{}
 	parallelFor(len(cens), func(i int) {
 		e := cens[i]
